@@ -196,3 +196,105 @@ Theorem C02_one_root_not_enough_refuted :
   calibratedb Qc_sum_dsr chain3_ones = true.
 Proof. exact first_root_not_enough. Qed.
 Print Assumptions C02_one_root_not_enough_refuted.
+
+(* ================================================================== END TO END (composition with C14)
+   C14 proves, for every Markov network, that MarkovNetwork.to_junction_tree of the model -- triangulate as coded along
+   ANY order (every heuristic), the maximal cliques of the result, ANY maximum-weight spanning tree of the clique
+   graph -- is a connected clique tree with the running-intersection property whose clique potentials multiply to
+   the product of all factors.  The bridging lemmas below translate C14's notions (Spec.is_tree: connected with n-1
+   edges; Spec.rip: the cliques holding a variable are connected among themselves) into C02's (tree_shape; a
+   leaf-elimination order ending in any clique).  No junction-tree certificate remains; the only facts taken from
+   networkx are C14's two certified ones: F lists the maximal cliques, and the spanning tree has maximum weight. *)
+From PV Require C14.UGraph C14.Model C14.Spec C14.ProofsRIP.
+From PV Require Import C02.ProofsBridge C02.ProofsBridge2 C02.ProofsEndToEnd.
+
+(* C14's tree (connected, n-1 edges) with adjacency lists in any order is C02's tree: in particular it has no loop
+   and no repeated edge *)
+Theorem C02_bridge_tree : forall (D : dsr) (t : ctree D),
+  C14.Spec.is_tree (jt_of D t) -> adj_ok D t -> ProofsTree.is_tree D t.
+Proof. exact bridge_tree_shape. Qed.
+Print Assumptions C02_bridge_tree.
+
+(* C14's path-based running intersection on a tree gives a leaf-elimination order ending in ANY clique r (eliminate in
+   the reverse of the breadth-first discovery order from r) *)
+Theorem C02_bridge_rip_peel_order : forall (D : dsr) (t : ctree D),
+  C14.Spec.is_tree (jt_of D t) -> C14.Spec.rip (jt_of D t) -> adj_ok D t ->
+  forall r, r < length (cliques D t) -> exists order, peels D t (all_cl D t) (all_ed D t) order [r] [].
+Proof. exact rip_gives_peel_order. Qed.
+Print Assumptions C02_bridge_rip_peel_order.
+
+(* Markov network -> junction tree -> calibrate()/max_calibrate() as coded: every sepset belief equals both
+   neighbours' sepset marginals, and every clique belief is the exact sum/max-marginal of the SOURCE model's joint
+   (the product of ALL its factors) over an enumeration vs of exactly the variables outside the clique.  All
+   cardinalities, all non-negative factors, any number of variables. *)
+Theorem C02_end_to_end_calibration : forall (D : dsr) (card : var -> nat) (g : C14.UGraph.ugraph) (order : list nat)
+  (inplace : bool) (F : list (list var)) (E0 : list (nat * nat)) (adjl : list (list nat)) (fs : list (factor D)),
+  C14.UGraph.noloop (C14.UGraph.uedges g) ->
+  (forall v, In v (C14.UGraph.endpoints (C14.UGraph.uedges g)) -> In v order) ->
+  C14.ProofsRIP.max_cliques_of (C14.UGraph.uedges (C14.Model.triangulate_order g order inplace))
+                               (C14.UGraph.vertices (C14.Model.triangulate_order g order inplace)) F ->
+  C14.ProofsRIP.max_weight_tree {| C14.Model.jcliques := F; C14.Model.jedges := E0 |} ->
+  Forall (wf D card) fs -> Forall (fnn D card) fs ->
+  (forall f, In f fs -> incl (fvars f) (C14.UGraph.vertices g) /\ C14.UGraph.is_clique (C14.UGraph.uedges g) (fvars f)) ->
+  exists ps, C14.Model.jt_potentials D card F fs = C14.Model.Ok ps /\
+  let t := tree_from D F E0 adjl ps in
+  adj_ok D t ->
+  let st := calibrate D card t in
+  all_edges_set D t st /\ sepset_agree D card t st /\
+  forall r, r < length F ->
+    exists vs, enumerates_complement vs (all_vars D t) (clq D t r) /\
+      forall a, valid card a ->
+        feval D card (belief D card st r) a = sum_over vs (map card vs) (C14.Spec.joint D card fs) a.
+Proof. exact e2e_calibration. Qed.
+Print Assumptions C02_end_to_end_calibration.
+
+(* ... and BeliefPropagation.query as coded on that tree returns the SOURCE joint with the evidence substituted,
+   summed over exactly the non-query non-evidence variables (pgmpy then normalises).  Remaining per-query certificate:
+   Cert.query_cert (the traversal of the query's subtree, proved sound); no junction-tree certificate. *)
+Theorem C02_end_to_end_query : forall (D : dsr) (card : var -> nat) (g : C14.UGraph.ugraph) (order : list nat)
+  (inplace : bool) (F : list (list var)) (E0 : list (nat * nat)) (adjl : list (list nat)) (fs : list (factor D)),
+  C14.UGraph.noloop (C14.UGraph.uedges g) ->
+  (forall v, In v (C14.UGraph.endpoints (C14.UGraph.uedges g)) -> In v order) ->
+  C14.ProofsRIP.max_cliques_of (C14.UGraph.uedges (C14.Model.triangulate_order g order inplace))
+                               (C14.UGraph.vertices (C14.Model.triangulate_order g order inplace)) F ->
+  C14.ProofsRIP.max_weight_tree {| C14.Model.jcliques := F; C14.Model.jedges := E0 |} ->
+  Forall (wf D card) fs -> Forall (fnn D card) fs ->
+  (forall f, In f fs -> incl (fvars f) (C14.UGraph.vertices g) /\ C14.UGraph.is_clique (C14.UGraph.uedges g) (fvars f)) ->
+  exists ps, C14.Model.jt_potentials D card F fs = C14.Model.Ok ps /\
+  let t := tree_from D F E0 adjl ps in
+  adj_ok D t ->
+  forall Q ev r, bp_query D card t (calibrate D card t) Q ev = Some r -> query_cert D card t Q ev r = true ->
+    exists vs, enumerates_complement vs (all_vars D t) (Q ++ map fst ev) /\
+      forall a, valid card a ->
+        feval D card (q_factor D r) a =
+        sum_over vs (map card vs) (fun b => C14.Spec.joint D card fs (upds b ev)) a.
+Proof. exact e2e_query. Qed.
+Print Assumptions C02_end_to_end_query.
+
+(* Bayesian network: through moralisation (C14.Model.bn_to_mn, one factor per CPD), the same, with the joint written
+   as the product of the CPDs *)
+Theorem C02_end_to_end_calibration_bn : forall (D : dsr) (card : var -> nat) (dag : Base.Graph.digraph)
+  (cpds : list (C14.Model.cpd D)) (order : list nat) (inplace : bool) (F : list (list var)) (E0 : list (nat * nat))
+  (adjl : list (list nat)),
+  Base.Graph.wf_graph dag -> NoDup (Base.Graph.edges dag) -> (forall a, ~ In (a, a) (Base.Graph.edges dag)) ->
+  (forall c, In c cpds -> In (C14.Model.cchild D c) (Base.Graph.nodes dag) /\
+     forall p, In p (C14.Model.cpars D c) -> In (p, C14.Model.cchild D c) (Base.Graph.edges dag)) ->
+  let g := C14.Model.moral_graph dag in
+  let fs := C14.Model.mfactors D (C14.Model.bn_to_mn D dag cpds) in
+  Forall (wf D card) fs -> Forall (fnn D card) fs ->
+  (forall v, In v (C14.UGraph.endpoints (C14.UGraph.uedges g)) -> In v order) ->
+  let g' := C14.Model.triangulate_order g order inplace in
+  C14.ProofsRIP.max_cliques_of (C14.UGraph.uedges g') (C14.UGraph.vertices g') F ->
+  C14.ProofsRIP.max_weight_tree {| C14.Model.jcliques := F; C14.Model.jedges := E0 |} ->
+  exists ps, C14.Model.jt_potentials D card F fs = C14.Model.Ok ps /\
+  let t := tree_from D F E0 adjl ps in
+  adj_ok D t ->
+  let st := calibrate D card t in
+  all_edges_set D t st /\ sepset_agree D card t st /\
+  forall r, r < length F ->
+    exists vs, enumerates_complement vs (all_vars D t) (clq D t r) /\
+      forall a, valid card a ->
+        feval D card (belief D card st r) a =
+        sum_over vs (map card vs) (fun b => prod_list (map (fun c => C14.Model.cpd_eval D card c b) cpds)) a.
+Proof. exact e2e_calibration_bn. Qed.
+Print Assumptions C02_end_to_end_calibration_bn.
